@@ -939,7 +939,7 @@ def evaluate_component(case):
 
 
 FAMILIES = [
-    Family("pandas_programs", evaluate, strategy=strat_pandas, n_quick=200, n_thorough=3000, shards_quick=6,
+    Family("pandas_programs", evaluate, strategy=strat_pandas, n_quick=180, n_thorough=3000, shards_quick=6,
            shards_thorough=16,
            required_labels=["op=add_columns", "op=remove_columns", "op=select_columns", "op=rename_columns",
                             "op=update_column", "op=update_columns", "op=set_index", "op=reset_index",
